@@ -57,7 +57,8 @@ func HarnessC13_Compressed() {
 	var payload []byte
 	for i, f := range frames {
 		if i == 0 {
-			vAssert(f.opcode == BinaryMessage && f.rsv == 4, "first frame: binary opcode, RSV1 set")
+			// RFC 7692 6: a sender may also send a message uncompressed (RSV1 clear)
+			vAssert(f.opcode == BinaryMessage && (f.rsv == 4 || f.rsv == 0), "first frame: binary opcode, no reserved bit other than RSV1")
 		} else {
 			vAssert(f.opcode == 0, "following frames are continuation frames")
 			vAssert(f.rsv == 0, "RSV1 only on the first frame of a compressed message")
@@ -65,6 +66,14 @@ func HarnessC13_Compressed() {
 		vAssert(f.fin == (i == len(frames)-1), "FIN on the last frame only")
 		vAssert(f.masked == !server, "masked iff written by a client")
 		payload = append(payload, f.payload...)
+	}
+	if frames[0].rsv == 0 {
+		vAssert(len(payload) == len(msg), "an uncompressed message has the message's length")
+		if len(payload) == len(msg) {
+			vAssert(vEqBytes(payload, msg), "an uncompressed message carries the message")
+		}
+		vReach("compressed")
+		return
 	}
 	// RFC 7692 7.2.2: append 00 00 ff ff and inflate
 	fr := flate.NewReader(io.MultiReader(bytes.NewReader(payload), bytes.NewReader([]byte{0x00, 0x00, 0xff, 0xff, 0x01, 0x00, 0x00, 0xff, 0xff})))
